@@ -98,6 +98,17 @@ def run(ctx):
     ref = np.zeros((1, 12), np.uint8); pred = np.zeros((1, 12), np.uint8)
     ref[0, 0:4] = 1; pred[0, 0:4] = 1; ref[0, 6:10] = 2; pred[0, 9:10] = 2
     cases = [({"input": "matched", "imetrics": ["IOU", "DSC"], "gmetrics": [], "dmetric": "IOU", "dthr": 0.5}, pred, ref)]
+    # decision thresholds at the boundary of a decreasing metric (0.0) and exactly at achieved scores
+    for dm, dthr in (("ASSD", 0.0), ("RVD", 0.0), ("ASSD", 0.5), ("IOU", 0.0), ("IOU", 1.0), ("DSC", 0.0)):
+        for it in ("matched", "unmatched"):
+            p, r = np.zeros((6, 9), np.uint8), np.zeros((6, 9), np.uint8)
+            r[1:3, 1:4] = 1; p[1:3, 1:4] = 1            # perfect instance
+            r[3:6, 5:9] = 2; p[3:5, 5:8] = 2            # shifted / smaller instance (ASSD > 0, RVD < 0)
+            r[0, 6:9] = 3; p[0, 5:9] = 3                # larger prediction (RVD > 0)
+            c = {"input": it, "imetrics": ["DSC", "IOU", "ASSD", "RVD"], "gmetrics": [], "dmetric": dm, "dthr": dthr}
+            if it == "unmatched":
+                c.update({"matcher": "naive", "mmetric": "IOU", "mthr": 0.3})
+            cases.append((c, p, r))
     for _ in range(ctx.scale(200, 2500)):
         it = rng.choice(["matched", "unmatched", "unmatched", "semantic"])
         p, r = impl.rand_pair(rng, max_side=6, max_inst=4)
@@ -117,6 +128,12 @@ def run(ctx):
         ctx.count({"cfg": cfg, "pred": pred.tolist(), "ref": ref.tolist()}, r.get("tp", 0) >= 1 and (r["fp"] + r["fn"] >= 1 or "dmetric" in cfg))
         ctx.bump(f"{cfg['input']}/{cfg.get('matcher', '-')}/dm={cfg.get('dmetric')}")
         bad = pipeline.bookkeeping(r)
+        # every true positive passes the decision threshold (direction-aware, equality passes) ...
+        if cfg.get("dmetric") is not None and cfg["dmetric"] in r["metrics"]:
+            decr = cfg["dmetric"] in ("ASSD", "RVD")
+            for v in r["metrics"][cfg["dmetric"]]["all"]:
+                if (v > cfg["dthr"]) if decr else (v < cfg["dthr"]):
+                    bad.append(f"an instance with {cfg['dmetric']}={v} is counted as true positive although the decision threshold is {cfg['dthr']}")
         if bad:
             ctx.violation("result bookkeeping is inconsistent: " + "; ".join(bad[:3]), {**case, "observed": r})
         try:
